@@ -123,9 +123,9 @@ func genDesc(t *rapid.T, c *Case) *esmodel.Desc {
 }
 
 var opKinds = []string{"define", "define", "define", "define", "get", "get", "set", "set", "set", "delete", "delete", "has", "hasOwn", "gopd", "gopd", "ownKeys", "names", "symbols", "keys",
-	"preventExt", "seal", "freeze", "isExt", "isSealed", "isFrozen", "getProto", "setProto", "setProto", "forin", "assign"}
+	"preventExt", "seal", "freeze", "isExt", "isSealed", "isFrozen", "getProto", "setProto", "setProto", "forin", "forin2", "assign", "defprops"}
 
-var focusOpKinds = []string{"define", "define", "define", "set", "set", "set", "set", "get", "delete", "gopd", "setProto", "preventExt", "freeze", "seal", "ownKeys", "has"}
+var focusOpKinds = []string{"defprops", "forin2", "define", "define", "define", "set", "set", "set", "set", "get", "delete", "gopd", "setProto", "preventExt", "freeze", "seal", "ownKeys", "has"}
 
 func genOp(t *rapid.T, c *Case) *esmodel.Op {
 	kinds := opKinds
@@ -140,6 +140,29 @@ func genOp(t *rapid.T, c *Case) *esmodel.Op {
 		op.Surf = "Reflect"
 	}
 	switch op.Op {
+	case "defprops":
+		// 2-3 entries in the order the property list object enumerates them: array indices ascending, then strings in
+		// creation order, then symbols
+		op.Surf = "Object"
+		pool := []string{`s:"0"`, `s:"1"`, `s:"a"`, `s:"b"`, "y:0"}
+		var picked []string
+		for _, k := range pool {
+			if rapid.IntRange(0, 1).Draw(t, "dpk") == 0 {
+				picked = append(picked, k)
+			}
+		}
+		if len(picked) < 2 {
+			picked = []string{`s:"a"`, `s:"b"`}
+		}
+		for _, k := range picked {
+			op.L = append(op.L, esmodel.KD{K: k, D: genDesc(t, c)})
+		}
+		if rapid.IntRange(0, 2).Draw(t, "dpbad") == 0 {
+			// a later entry that is not a valid descriptor: accessor and data fields mixed
+			bad := op.L[len(op.L)-1].D
+			bad.HasGet, bad.Get = true, mustVal("o:900")
+			bad.HasValue, bad.Value = true, mustVal("d:1")
+		}
 	case "define":
 		op.K = genKey(t, c)
 		op.D = genDesc(t, c)
